@@ -1,19 +1,22 @@
-\* leg A (quick): repaired design (prefer delivered reply; t.m section before closeOnce), code's retry policy
-SPECIFICATION Spec
+\* leg A quick (C07): transport Close at every point, silence, liveness
+SPECIFICATION FairSpec
 CONSTANTS
   NCalls = 2
   MaxDials = 2
   Policy = "code"
   MaxRetry = 2
+  AttemptBound = 4
   RandomSelect = FALSE
   LockInOnce = FALSE
-  MaxFaults = 2
+  Dev = {}
+  MaxFaults = 0
   Kinds = {"eof", "silent"}
   OrderedStart = TRUE
   CancelCalls = {}
-  EnvTClose = FALSE
+  EnvTClose = TRUE
   Coarse = TRUE
   WithHist = FALSE
 VIEW ViewNoHist
 INVARIANTS TypeOK FailOnlyWhen AttemptsBounded NoLoss ErrOnFault ClosedRejects CloseWakesAll ArmedIsShortWhenOwed OneAtATime IdleSound NoLockCycle
+PROPERTIES CallsEnd Released
 CHECK_DEADLOCK FALSE
